@@ -106,6 +106,21 @@ pub fn run(ctx: Arc<Ctx>) {
 	}
 	runs.insert((5, 3, 3), b"same".to_vec());
 	fams.push(("run of equal tiles in Hilbert order + one far duplicate".into(), runs));
+	// A,B,A,B,... in consecutive Hilbert ids, equal lengths: with shared offsets a back-referencing entry is
+	// directly followed by one that is contiguous to it (offset column ..,1,0,1,0)
+	let mut alt = TileMap::new();
+	for id in 21u64..29 {
+		let k = codec::pm_id_to_zxy(id).unwrap();
+		alt.insert(k, [b"AAAAA".to_vec(), b"BBBBB".to_vec(), b"AAAAA".to_vec(), b"BBBBB".to_vec(), b"CCCCC".to_vec(), b"AAAAA".to_vec(), b"BBBBB".to_vec(), b"DDDDD".to_vec()][(id - 21) as usize].clone());
+	}
+	fams.push(("alternating duplicate payloads in consecutive Hilbert ids".into(), alt));
+	// irregular level: five columns, the extreme rows lie in the second and fourth column only
+	let mut irr = TileMap::new();
+	for (x, y) in [(3u32, 10u32), (4, 5), (5, 10), (5, 11), (6, 20), (7, 10)] {
+		irr.insert((5, x, y), format!("irr {x} {y}").into_bytes());
+	}
+	irr.insert((2, 1, 3), b"z2".to_vec());
+	fams.push(("irregular level with extreme rows outside the first/middle/last column, zoom gap".into(), irr));
 	let mut gap = TileMap::new();
 	gap.insert((0, 0, 0), b"root".to_vec());
 	gap.insert((5, 17, 11), b"five".to_vec());
